@@ -117,6 +117,7 @@ pub fn profile(id: &str) -> Option<Profile> {
         }
         "C13" => {
             g.op_weights = [20, 8, 6, 4, 1, 3, 0, 50, 2];
+            g.read_only_pct = 30;
             o.flush_reopen = false;
             o.need_flush = false;
             (Kind::Engine, 4000, 100_000)
@@ -165,6 +166,9 @@ pub fn profile(id: &str) -> Option<Profile> {
 
 thread_local! {
     static PANIC_INFO: RefCell<Option<String>> = const { RefCell::new(None) };
+    /// set by the concurrent engine when the current run contained a discard
+    /// racing with a write to the same guest cluster (known finding KF02)
+    pub static KF02_TAINT: std::cell::Cell<bool> = const { std::cell::Cell::new(false) };
 }
 
 pub fn install_panic_hook() {
@@ -222,7 +226,7 @@ impl RunOut {
         let viols: Vec<Value> = self
             .viols
             .iter()
-            .map(|v| json!({"props": v.props, "sig": v.sig, "detail": v.detail, "step": v.step}))
+            .map(|v| json!({"props": v.props, "sig": v.sig, "detail": v.detail, "step": v.step, "nonfatal": v.nonfatal}))
             .collect();
         let mut j = json!({
             "run": self.run,
@@ -292,6 +296,7 @@ pub fn run_engine(p: &Profile, seed: u64, run: u64, ov: &Override, want_case: bo
         ..Default::default()
     };
     let _ = qcow2_rs::verif::take_probes();
+    KF02_TAINT.with(|t| t.set(false));
     let oracles = p.oracles.clone();
     let res = std::panic::catch_unwind(std::panic::AssertUnwindSafe(|| {
         let mut w = World::new(&cfg, ch, oracles);
@@ -325,11 +330,17 @@ pub fn run_engine(p: &Profile, seed: u64, run: u64, ov: &Override, want_case: bo
         }
         Err(_) => {
             let info = take_panic();
+            let taint = if KF02_TAINT.with(|t| t.get()) {
+                "/discard-racing-write-same-cluster"
+            } else {
+                ""
+            };
             out.viols.push(Viol {
                 props: vec![p.id],
-                sig: panic_sig(&info),
+                sig: format!("{}{taint}", panic_sig(&info)),
                 detail: format!("panic: {info}"),
                 step: 0,
+                nonfatal: false,
             });
         }
     }
